@@ -39,6 +39,8 @@ def gen_config(rng, idx, faults=True, nclients_max=1, allow_raw=True):
         cfg["fault"] = None
     cfg["rseed"] = rng.getrandbits(32)
     cfg["pred"] = rng.random() < 0.25       # an earlier session used (and abandoned) the slot first
+    # resolvers rotate / shuffle the records of an answer (the protocol numbers them 10, 20, 30 .. for that reason)
+    cfg["rr_order"] = rng.choice(["keep", "rotate", "reverse", "shuffle"]) if cfg["qtype"] in ("MX", "SRV") else "keep"
     return cfg
 
 
@@ -51,6 +53,7 @@ def fault_profile(cfg, rng, t0, duration):
     if qx:
         p["qx"] = (qx[0], qx[1])
         p["case"] = qx[2]
+    p["rr_order"] = cfg.get("rr_order", "keep")
     if fc is None:
         return p
     p["fault_from"] = t0
